@@ -507,10 +507,41 @@ def _sort_ops(v):
     return v
 
 
+def _op_lists(impl):
+    try:
+        method = impl["result"]["didDocumentMetadata"]["method"]
+    except (KeyError, TypeError):
+        return {}
+    return {k: method[k] for k in ("publishedOperations", "unpublishedOperations") if isinstance(method.get(k), list)}
+
+
+def _without_n(v):
+    """drop the harness's note (the transaction number an unpublished operation's request names)"""
+    if isinstance(v, dict):
+        return {k: ([{a: b for a, b in o.items() if a != "n"} if isinstance(o, dict) else o for o in x]
+                    if k == "unpublishedOperations" and isinstance(x, list) else _without_n(x)) for k, x in v.items()}
+    if isinstance(v, list):
+        return [_without_n(x) for x in v]
+    return v
+
+
+def _c18_order_property(r):
+    """"in anchoring order, by transaction time and then transaction number" - on the implementation's own lists
+    (the comparison with the model leaves the order among equal (time, number) open, so it sorts both sides)"""
+    if r["kind"] not in ("transform", "gtransform") or not isinstance(r["impl"], dict):
+        return None
+    for name, ops in _op_lists(r["impl"]).items():
+        keys = [(o.get("transactionTime", 0), o.get("transactionNumber", o.get("n", 0))) for o in ops if isinstance(o, dict)]
+        if keys != sorted(keys):
+            return "transform/" + name + "-not-in-anchoring-order"
+    return None
+
+
 def _cmp_transform(kind, case, impl, model):
     from check import canon, first_diff
     if isinstance(impl, dict) and "keys_validated" in impl:
         impl = {k: v for k, v in impl.items() if k != "keys_validated"}   # the harness's note for the predicate
+    impl = _without_n(impl)
     a, b = canon(_sort_ops(impl)), canon(_sort_ops(model))
     return None if a == b else first_diff(a, b)
 
@@ -653,7 +684,7 @@ PROPS["C18"] = {
     "obligations": [{"name": "Shape_Transformer", "facts": "module:Transformer"}, {"name": "C18_tables", "facts": ["keyContexts", "purposeSwitch", "sortCmp"]}],
     "streams": [{"gen": "C18", "quick": 4000, "thorough": 200000}, {"gen": "C18info", "quick": 600, "thorough": 20000}],
     "compare": _cmp_transform,
-    "property_check": lambda r: _c18_info_property(r),
+    "property_check": lambda r: _c18_info_property(r) or _c18_order_property(r),
     "label": lambda r: ("tinfo/" + ("published/refs=%d%s" % (len(r["case"].get("er") or []), "/canonical" if r["case"].get("cr") else "") if r["case"].get("published") else
                                    "unpublished" + ("/label" if r["case"].get("label") else "") + ("/domain" if r["case"].get("domain") else "") + ("/long" if r["case"].get("jcs") else "")))
                        if r["kind"] == "tinfo" else
